@@ -291,7 +291,8 @@ def r1(ctx: Ctx) -> None:
     if pos < 2:
         ctx.report(frc.where, "reject-rect-size", "Rectangle.__init__ does not refuse non-positive width or height", lineno=frc.node.lineno)
     fpr = ctx.func(GEOM, "parse_yaml_rectangle")
-    cpr = canon_function(fpr, m)
+    from .common import unversion
+    cpr = unversion(canon_function(fpr, m), 0)       # the reader first coerces a list argument into a tuple
     ctx.site(fpr.where, "rectangle reader: 4..5 entries, four numerics >= 0")
     okr = False
     for lp in _loops(cpr, lambda lp: lp[2] == ("c", ("g", "range"), (k_num(4),), ())):
